@@ -258,6 +258,11 @@ impl<S: Read + Write> Client<S> {
         self.selected_protocol
     }
 
+    /// Bytes already received that the next read will not wait for
+    pub fn pending(&self) -> usize {
+        self.transport.pending()
+    }
+
     pub fn shutdown(&mut self) -> RdpResult<()> {
         self.transport.shutdown()
     }
